@@ -12,7 +12,7 @@ GOOD = ["dupCase", "ifElseChain", "typeSwitchVar", "mapKey", "elseif", "unlambda
         "rangeValCopy", "hugeParam", "deferUnlambda", "dupBranchBody", "offBy1", "regexpMust", "wrapperFunc"]
 
 
-def make(ctx, name, npk, files=("positive_tests.go", "negative_tests.go"), with_tests=False, pick=None):
+def make(ctx, name, npk, files=("positive_tests.go", "negative_tests.go"), with_tests=False, pick=None, adv=()):
     d = os.path.dirname(ctx.path(name, "go.mod"))
     with open(os.path.join(d, "go.mod"), "w") as f:
         f.write("module example.com/ws\n\ngo 1.21\n")
@@ -43,6 +43,13 @@ def make(ctx, name, npk, files=("positive_tests.go", "negative_tests.go"), with_
         if ok:
             pkgs.append("./p%d" % i)
             used.append(n)
+    for a in adv:
+        src = os.path.join(vlib.VERIF, "corpus", "adv", a)
+        dst = os.path.join(d, "adv_" + a)
+        os.makedirs(dst, exist_ok=True)
+        for fn in os.listdir(src):
+            open(os.path.join(dst, fn), "w").write(open(os.path.join(src, fn)).read())
+        pkgs.append("./adv_" + a)
     # the workspace must type-check
     r = subprocess.run(["go", "vet", "-vettool=/bin/true", "./..."], cwd=d, env=vlib.goenv(), capture_output=True, text=True)
     r = subprocess.run(["go", "build", "./..."], cwd=d, env=vlib.goenv(), capture_output=True, text=True)
